@@ -8,6 +8,8 @@ import warnings
 
 HERE = os.path.dirname(os.path.abspath(__file__))
 sys.path.insert(0, HERE)
+if os.environ.get("VERIF_REPO"):
+    sys.path.insert(0, os.environ["VERIF_REPO"])   # test against a scratch worktree of /repo
 os.environ.setdefault("OMP_NUM_THREADS", "1")
 os.environ.setdefault("OPENBLAS_NUM_THREADS", "1")
 os.environ.setdefault("MPLBACKEND", "Agg")
